@@ -560,6 +560,12 @@ pub fn run_conc(prop: &'static str, plan_v: &Value) -> RunOutcome {
         c.running = None;
     }
     h.settle();
+    // the schedule perturbations that took effect (reported as fault kinds in the evidence)
+    for (name, n) in [("reader_runs_while_a_writer_is_inside_a_rollover", reads_inside_rollover), ("reader_runs_while_a_writer_is_inside_a_transaction", reads_inside_txn), ("appends_with_the_same_expectation_in_flight", concurrent_same_expectation), ("append_polled_first_after_a_rollover", polled_after_rollover), ("timer_fired", timer_fires)] {
+        if n > 0 {
+            *h.faults.entry(name.to_string()).or_default() += n;
+        }
+    }
     h.probe_n("reads_while_writer_inside_rollover", reads_inside_rollover);
     h.probe_n("reads_while_writer_inside_transaction", reads_inside_txn);
     h.probe_n("same_expectation_in_flight", concurrent_same_expectation);
